@@ -116,3 +116,14 @@ impl HeaderInner {
         })
     }
 }
+
+#[cfg(feature = "verif")]
+impl HeaderInner {
+    pub(super) fn verif_from_bytes(bytes: &[u8]) -> Result<Self> {
+        Self::from_bytes(bytes)
+    }
+
+    pub(super) fn verif_to_bytes(&self) -> Vec<u8> {
+        self.to_bytes().to_vec()
+    }
+}
